@@ -24,7 +24,8 @@ ASSUMPTIONS = [
     'molecular opacities recomputed from the generated tables (C04 reference); CIA/Rayleigh opacities as the contribution reports them; layer thickness = model.deltaz (judged in C11)',
     'rtol 1e-8 (fastmath Planck kernel)',
 ]
-REQUIRED = {'kind:emission': 0.3, 'kind:directimage': 0.2, 'profile:iso': 0.1, 'profile:noniso': 0.3,
+RULE = RULE + ' ' + 'Worlds also come in integer-axis forms (wavenumber and/or temperature axes held as integer arrays of the same values).'
+REQUIRED = {'refused-quadrature-before-use': 0.2, 'kind:emission': 0.3, 'kind:directimage': 0.2, 'profile:iso': 0.1, 'profile:noniso': 0.3,
             'regime:mixed': 0.08}
 PARSEC = 3.08567758e16
 
@@ -35,7 +36,8 @@ def _case(draw):
     ngauss = draw(S.ints(1, 8))
     dist = draw(st.floats(1.0, 500.0))
     w = draw(S.world(extras=('CIA', 'Rayleigh')))
-    return {'world': w, 'kind': kind, 'ngauss': ngauss, 'dist': dist}
+    # a refused setting on the built model before it is used: a quadrature of zero points (the caller catches the error)
+    return {'world': w, 'kind': kind, 'ngauss': ngauss, 'dist': dist, 'refused_gauss': draw(S.pick([None, 0, None, -1]))}
 
 
 def strategy(tier):
@@ -74,6 +76,11 @@ def check(case):
         W = cut(out, 'build-world', synth.build_world, w)
         W.star.distance = case['dist']
         m = cut(out, 'build-model', synth.make_model, W, kind, None, ngauss=ng)
+        if case.get('refused_gauss') is not None:
+            try:
+                m.set_num_gauss(case['refused_gauss'])
+            except Exception:
+                out.cls('refused-quadrature-before-use')
         with np.errstate(all='ignore'):
             res = cut(out, 'model', m.model)
             part = cut(out, 'partial_model', m.partial_model)
